@@ -7,7 +7,7 @@ Cn(parts) == <<"cn", parts>>
 Base == { <<"ty", "/any">>, <<"ty", "/number">>, <<"ty", "/string">>, <<"ty", "/name">>, <<"ty", "/float64">>,
           <<"pre", <<"foo">>>>, <<"pre", <<"foobar">>>>, <<"pre", <<"foo", "a">>>>, <<"pre", <<"num">>>>,
           <<"single", Num(1)>>, <<"single", Cn(<<"foo", "a">>)>>, <<"single", Str("x")>> }
-Small == { <<"ty", "/any">>, <<"ty", "/number">>, <<"ty", "/string">>, <<"pre", <<"foo">>>>, <<"pre", <<"foobar">>>>, <<"single", Num(1)>> }
+Small == { <<"ty", "/any">>, <<"ty", "/number">>, <<"ty", "/string">>, <<"ty", "/name">>, <<"pre", <<"foo">>>>, <<"pre", <<"foo", "a">>>>, <<"pre", <<"foobar">>>>, <<"single", Num(1)>> }
 Depth1 ==
   {<<"union", <<a, b>>>> : a \in Small, b \in Small}
   \cup {<<"tpair", a, b>> : a \in Small, b \in Small}
